@@ -70,6 +70,17 @@ func c10Args(mode, hashKind int) string {
 	if hashKind == 2 {
 		h = "hv" // the same hash, held in a host variable (set by the host or supplied as a Go map)
 	}
+	// the with-hash is an expression: a hash literal that continues (attribute, subscript, conditional, comparison)
+	switch hashKind {
+	case 3:
+		h = "{'h': {'x': 'wx', 'w': 'ww'}}.h"
+	case 4:
+		h = "{'h': {'w': 'ww'}}['h']"
+	case 5:
+		h = "{} ? {} : {'x': 'wx', 'w': 'ww'}"
+	case 6:
+		h = "{'k': 1} == 0 ? {} : {'w': 'ww'}"
+	}
 	switch mode {
 	case 1:
 		return " with " + h
@@ -87,7 +98,7 @@ func c10TargetVars(site c10Vars, mode, hashKind int) c10Vars {
 		v = site.copy()
 	}
 	if mode == 1 || mode == 3 {
-		if hashKind == 0 || hashKind == 2 {
+		if hashKind == 0 || hashKind == 2 || hashKind == 3 || hashKind == 5 {
 			v["x"] = "wx"
 		}
 		v["w"] = "ww"
@@ -504,13 +515,16 @@ func c10Run(c core.Case) core.Result {
 
 func c10Levels(tier string) []core.Level {
 	return []core.Level{
-		{Name: "full product: 9 call sites / host states x 21 include/embed statements x {plain, with, only, with only} x 3 with-hashes (two literals and a host variable holding a Go map, which must be unchanged afterwards); embed bodies with nothing / line breaks and comments / trimmed and tag-mentioning comments between the overriding blocks", Gen: func(emit func(core.Case)) {
+		{Name: "full product: 9 call sites / host states x 21 include/embed statements x {plain, with, only, with only} x 3 with-hashes (two literals and a host variable holding a Go map, which must be unchanged afterwards; at 3 call sites also 4 hash literals that continue as an expression: attribute, subscript, conditional, comparison); embed bodies with nothing / line breaks and comments / trimmed and tag-mentioning comments between the overriding blocks", Gen: func(emit func(core.Case)) {
 			for host := 0; host < c10Hosts; host++ {
 				for k := 0; k < c10Stmts; k++ {
 					for mode := 0; mode < 4; mode++ {
-						for hk := 0; hk < 3; hk++ {
+						for hk := 0; hk < 7; hk++ {
 							if (mode == 0 || mode == 2) && hk >= 1 {
 								continue
+							}
+							if hk >= 3 && host > 1 && host != 4 {
+								continue // the with-hashes written as longer expressions: at the top level and in a child's block
 							}
 							emit(core.Case{Fam: "cfg", N: []int{host, k, mode, hk}})
 							if k >= 5 && k != 19 && k != 20 {
